@@ -119,7 +119,7 @@ def Op.cden : Op → Option Nat
   | .un k c => (k.mapClean c.cden).1
   | .filter _ c _ => c.cden
   | .stopImm c st => (match st.s with | .notStarted => none | _ => c.cden)
-  | .takeUntil a t _ => (match a.cden with | some e => some e | none => t.cden)
+  | .takeUntil a t _ => firstErr a.cden t.cden
 
 /-- result of cleanup() after one more next() with the given stop flag -/
 def Op.cdenNext : Op → Bool → Option Nat
@@ -128,7 +128,7 @@ def Op.cdenNext : Op → Bool → Option Nat
   | .filter _ c _, s => c.cdenNext s
   | .stopImm c st, s => if s then (match st.s with | .notStarted => none | _ => c.cden specs) else c.cdenNext st.src
   | .takeUntil a t st, _ =>
-    (match a.cdenNext true with | some e => some e | none => if st.trigStarted then t.cden specs else t.cdenNext false)
+    firstErr (a.cdenNext true) (if st.trigStarted then t.cden specs else t.cdenNext false)
 
 theorem mapDen_nil (f : Fn) (t : Option Nat) : mapDen f [] t = ([], t) := rfl
 
@@ -366,5 +366,181 @@ theorem pull_inline : ∀ (fuel : Nat) (op : Op) (stopped : Bool), St specs fals
         · simp only [Op.need]; omega
         · simp [Op.cden, Op.cdenNext, h1, hcd1]
         · simp [Op.cdenNext, hcn1, h1]
+
+theorem tu_cleanup_started (rec : Rec) (a t a' t' : Op) (st : TakeSt) (o1 o2 : List Out) (ea et : Option Nat)
+    (hph : st.ph = .idle) (h3 : st.ready = true) (hj : st.joined = false) (hse : st.srcErr = none)
+    (hte : st.trigErr = none)
+    (ha : rec .cleanup a = (a', o1, some (.clean ea)))
+    (ht : rec .cleanup t = (t', o2, some (.clean et))) :
+    ∃ st', takeStep rec .cleanup a t st =
+      (.takeUntil a' t' st', o1 ++ o2, some (.clean (firstErr ea et))) := by
+  cases ea <;> cases et <;>
+    simp [takeStep, hph, h3, hj, hse, hte, ha, ht, tuJoinSrc, tuJoinTrig, tuJoin, tuStartTrigCleanup, TU.res, firstErr]
+
+theorem tu_cleanup_started' (rec : Rec) (a t : Op) (st : TakeSt) (ea et : Option Nat)
+    (hph : st.ph = .idle) (h3 : st.ready = true) (hj : st.joined = false) (hse : st.srcErr = none)
+    (hte : st.trigErr = none)
+    (ha : (rec .cleanup a).2.2 = some (.clean ea))
+    (ht : (rec .cleanup t).2.2 = some (.clean et)) :
+    (takeStep rec .cleanup a t st).2.2 = some (.clean (firstErr ea et)) := by
+  obtain ⟨st', h⟩ := tu_cleanup_started rec a t _ _ st _ _ ea et hph h3 hj hse hte
+    (Prod.ext rfl (Prod.ext rfl ha)) (Prod.ext rfl (Prod.ext rfl ht))
+  rw [h]
+
+theorem clean_inline : ∀ (fuel : Nat) (op : Op), St specs true op → op.need specs ≤ fuel →
+    (deliver specs fuel .cleanup op).2.2 = some (.clean (op.cden specs)) := by
+  intro fuel
+  induction fuel with
+  | zero => intro op _ h; have := Op.need_pos specs op; omega
+  | succ f ih =>
+    intro op hst hfuel
+    cases op with
+    | leaf k st =>
+      obtain ⟨hph, hk⟩ := hst
+      cases k with
+      | range lo hi => simp [deliver, leafStep, hph, LeafKind.clean, Op.cden, CleanSpec.err]
+      | single v => simp [deliver, leafStep, hph, LeafKind.clean, Op.cden, CleanSpec.err]
+      | never => exact absurd hk (by simp [LeafKind.Inl])
+      | src i =>
+        obtain ⟨e, he⟩ := hk.2
+        simp [deliver, leafStep, hph, LeafKind.clean, Op.cden, CleanSpec.err, he]
+    | un k c =>
+      have hc := ih c hst (by simp [Op.need] at hfuel; omega)
+      simp [deliver, unStep, hc, Op.cden]
+    | filter p c s0 =>
+      have hc := ih c hst (by simp [Op.need] at hfuel; omega)
+      simp [deliver, filterStep, hc, Op.cden, filterAfter]
+    | stopImm c st =>
+      obtain ⟨hph, hsrc, herr, hs⟩ := hst
+      rcases hs with ⟨h1, _⟩ | ⟨h1, h2⟩
+      · simp [deliver, stopImmStep, hph, h1, Op.cden]
+      · have hc := ih c h2 (by simp [Op.need] at hfuel; omega)
+        simp [deliver, stopImmStep, hph, h1, hc, siOnClean, herr, Op.cden, firstErr]
+    | takeUntil a t st =>
+      obtain ⟨hph, hsr, htr, hj, hse, hte, hs⟩ := hst
+      rcases hs with ⟨h0, _⟩ | ⟨h1, h2, h3, hsa, hstt⟩
+      · simp at h0
+      · have ha := ih a hsa (by simp [Op.need] at hfuel; omega)
+        have ht := ih t hstt (by simp [Op.need] at hfuel; omega)
+        simp only [deliver, Op.cden]
+        exact tu_cleanup_started' (deliver specs f) a t st _ _ hph h3 hj hse hte ha ht
+
+/-- what the consumer ends with: delivered elements, result -/
+structure ConsOK (rt0 : Root) (op : Op) (l : List Nat) (t : Option Nat) (p : Root × List Out) : Prop where
+  delivered : p.1.delivered = rt0.delivered ++ (consSpec rt0.cons rt0.acc l t).1
+  result : p.1.result = some (finalResult (consSpec rt0.cons rt0.acc l t).2.2 (op.cdenNext specs rt0.stopped)
+              (consSpec rt0.cons rt0.acc l t).2.1)
+  ph : p.1.ph = .finished
+
+theorem consume_inline (l : List Nat) : ∀ (t : Option Nat) (n : Nat) (rt : Root) (op : Op),
+    rt.cons.kind ≠ .manual → rt.err = none → St specs false op → op.den specs rt.stopped = (l, t) →
+    op.need specs + 2 ≤ n →
+    ConsOK specs rt op l t (rootAfter specs n rt (deliver specs (op.need specs) (.next rt.stopped) op)) := by
+  induction l with
+  | nil =>
+    intro t n rt op hk herr hst hden hn
+    have hp := pull_inline specs (op.need specs) op rt.stopped hst (Nat.le_refl _)
+    obtain ⟨o, ho, hsp⟩ := hp.sig
+    have hcl := clean_inline specs _ _ hp.st (Nat.le_refl _)
+    have hcd := hp.cden
+    generalize hr : deliver specs (op.need specs) (.next rt.stopped) op = r at *
+    obtain ⟨op', outs, sg⟩ := r
+    simp only at ho hsp hcl hcd
+    subst ho
+    rw [hden] at hsp
+    obtain ⟨n1, rfl⟩ : ∃ n1, n = n1 + 2 := ⟨n - 2, by omega⟩
+    generalize hr2 : deliver specs (op'.need specs) .cleanup op' = r2 at *
+    obtain ⟨op2, outs2, sg2⟩ := r2
+    simp only at hcl
+    subst hcl
+    cases hkind : rt.cons.kind with
+    | manual => exact absurd hkind hk
+    | reduce =>
+      cases t with
+      | none =>
+        simp only [PullSpec] at hsp; subst hsp
+        refine ⟨?_, ?_, ?_⟩ <;> simp [rootAfter, hkind, hr2, consSpec, herr, hcd]
+      | some e =>
+        simp only [PullSpec] at hsp; subst hsp
+        refine ⟨?_, ?_, ?_⟩ <;> simp [rootAfter, hkind, hr2, consSpec, herr, hcd]
+    | forEach =>
+      cases t with
+      | none =>
+        simp only [PullSpec] at hsp; subst hsp
+        refine ⟨?_, ?_, ?_⟩ <;> simp [rootAfter, hkind, hr2, consSpec, herr, hcd]
+      | some e =>
+        simp only [PullSpec] at hsp; subst hsp
+        refine ⟨?_, ?_, ?_⟩ <;> simp [rootAfter, hkind, hr2, consSpec, herr, hcd]
+  | cons x xs ih =>
+    intro t n rt op hk herr hst hden hn
+    have hp := pull_inline specs (op.need specs) op rt.stopped hst (Nat.le_refl _)
+    obtain ⟨o, ho, hsp⟩ := hp.sig
+    have hcl := clean_inline specs _ _ hp.st (Nat.le_refl _)
+    have hcd := hp.cden
+    have hcn := hp.cdenNext
+    have hst' := hp.st
+    generalize hr : deliver specs (op.need specs) (.next rt.stopped) op = r at *
+    obtain ⟨op', outs, sg⟩ := r
+    simp only at ho hsp hcl hcd hcn hst'
+    subst ho
+    rw [hden] at hsp
+    obtain ⟨hov, hd', hlt⟩ := hsp
+    subst hov
+    obtain ⟨n1, rfl⟩ : ∃ n1, n = n1 + 2 := ⟨n - 2, by omega⟩
+    have hkind : rt.cons.kind = .reduce ∨ rt.cons.kind = .forEach := by
+      cases h : rt.cons.kind <;> simp_all
+    cases hstep : rt.cons.step rt.acc x with
+    | ok acc' =>
+      have h2 := ih t (n1 + 1) { rt with op := op', acc := acc', delivered := rt.delivered ++ [x] } op' hk herr
+        (St.weaken specs hst') hd' (by omega)
+      have e1 : (rootAfter specs (n1 + 2) rt (op', outs, some (Sig.next (Outcome.value x)))).1 =
+          (rootAfter specs (n1 + 1) { rt with op := op', acc := acc', delivered := rt.delivered ++ [x] }
+            (deliver specs (op'.need specs) (.next rt.stopped) op')).1 := by
+        rcases hkind with hkind | hkind <;> simp [rootAfter, hkind, hstep]
+      refine ⟨?_, ?_, ?_⟩
+      · rw [e1, h2.delivered]; simp [consSpec, hstep]
+      · rw [e1, h2.result]; simp [consSpec, hstep, hcn]
+      · rw [e1, h2.ph]
+    | error e =>
+      generalize hr2 : deliver specs (op'.need specs) .cleanup op' = r2 at *
+      obtain ⟨op2, outs2, sg2⟩ := r2
+      simp only at hcl
+      subst hcl
+      refine ⟨?_, ?_, ?_⟩ <;>
+        rcases hkind with hkind | hkind <;> simp [rootAfter, hkind, hstep, hr2, consSpec, hcd]
+
+theorem connect_den (e : SExpr) (s : Bool) : (connect e).den specs s = e.den specs s := by
+  induction e generalizing s with
+  | range lo hi => simp [connect, Op.den, leafDen, SExpr.den, LeafSt.init]
+  | single v => simp [connect, Op.den, leafDen, SExpr.den, LeafSt.init]
+  | neverS => simp [connect, Op.den, leafDen, SExpr.den]
+  | src i => simp [connect, Op.den, leafDen, SExpr.den, LeafSt.init]
+  | un k c ih => simp [connect, Op.den, SExpr.den, ih]
+  | filter p c ih => simp [connect, Op.den, SExpr.den, ih]
+  | stopImmediately c ih => simp [connect, Op.den, SExpr.den, ih, StopImmSt.init]
+  | takeUntil a t iha iht => simp [connect, Op.den, SExpr.den, iha]
+
+theorem connect_cdenNext (e : SExpr) (s : Bool) : (connect e).cdenNext specs s = e.cden specs s := by
+  induction e generalizing s with
+  | range lo hi => simp [connect, Op.cdenNext, SExpr.cden, LeafKind.clean, CleanSpec.err]
+  | single v => simp [connect, Op.cdenNext, SExpr.cden, LeafKind.clean, CleanSpec.err]
+  | neverS => simp [connect, Op.cdenNext, SExpr.cden, LeafKind.clean, CleanSpec.err]
+  | src i => simp [connect, Op.cdenNext, SExpr.cden, LeafKind.clean]
+  | un k c ih => simp [connect, Op.cdenNext, SExpr.cden, ih]
+  | filter p c ih => simp [connect, Op.cdenNext, SExpr.cden, ih]
+  | stopImmediately c ih => simp [connect, Op.cdenNext, SExpr.cden, ih, StopImmSt.init]
+  | takeUntil a t iha iht => simp [connect, Op.cdenNext, SExpr.cden, iha, iht, TakeSt.init]
+
+theorem connect_St (e : SExpr) (h : e.Inline specs) : St specs false (connect e) := by
+  induction e with
+  | range lo hi => simp [connect, St, LeafSt.init, LeafKind.Inl]
+  | single v => simp [connect, St, LeafSt.init, LeafKind.Inl]
+  | neverS => exact absurd h (by simp [SExpr.Inline])
+  | src i => exact ⟨rfl, h⟩
+  | un k c ih => exact ih h
+  | filter p c ih => exact ih h
+  | stopImmediately c ih => exact ⟨rfl, rfl, rfl, Or.inl ⟨rfl, ih h⟩⟩
+  | takeUntil a t iha iht =>
+    exact ⟨rfl, rfl, rfl, rfl, rfl, rfl, Or.inl ⟨rfl, rfl, rfl, rfl, iha h.1, iht h.2⟩⟩
 
 end Unifex.Stream
